@@ -15,6 +15,11 @@ type Script struct {
 	// Core marks the interferers that touch process-level facilities; they
 	// are the ones used in the statement-granular triple family.
 	Core bool
+	// Active marks the observers that call a library function with a side
+	// effect (seeding, collector control, files, contexts, coroutines, warn,
+	// setlocale, require, load); they double as interferers in the quick
+	// tier, all observers do in the thorough tier.
+	Active bool
 }
 
 // Interferers mutate whatever could conceivably be shared between two
@@ -327,18 +332,18 @@ var Interferers = []Script{
 // depends on real time, addresses, PIDs, the environment or the moment at
 // which Go's collector runs may appear here.
 var Observers = []Script{
-	{Name: "rand_seeded_int", Stmts: []string{
+	{Name: "rand_seeded_int", Active: true, Stmts: []string{
 		`math.randomseed(7)`,
 		`emit(math.random(10^6))`,
 		`emit(math.random(10^6))`,
 		`emit(math.random(1, 6))`,
 	}},
-	{Name: "rand_seeded_float", Stmts: []string{
+	{Name: "rand_seeded_float", Active: true, Stmts: []string{
 		`math.randomseed(42)`,
 		`emit(math.random())`,
 		`emit(math.random(0))`,
 	}},
-	{Name: "rand_seeded_two", Stmts: []string{
+	{Name: "rand_seeded_two", Active: true, Stmts: []string{
 		`math.randomseed(1, 2)`,
 		`emit(math.random(100))`,
 		`emit(math.random(-5, 5))`,
@@ -348,13 +353,13 @@ var Observers = []Script{
 		`x = 1`,
 		`emit(collectgarbage("isrunning"))`,
 	}},
-	{Name: "gc_count_step", Stmts: []string{
+	{Name: "gc_count_step", Active: true, Stmts: []string{
 		`emit(collectgarbage("count") >= 0)`,
 		`emit(math.type(collectgarbage("count")))`,
 		`emit(collectgarbage("step"))`,
 		`emit(collectgarbage("collect"))`,
 	}},
-	{Name: "gc_stop_restart_cycle", Stmts: []string{
+	{Name: "gc_stop_restart_cycle", Active: true, Stmts: []string{
 		`collectgarbage("stop")`,
 		`emit(collectgarbage("isrunning"))`,
 		`collectgarbage("restart")`,
@@ -415,7 +420,7 @@ var Observers = []Script{
 		`emit(io.output() == io.stdout, io.input() == io.stdin)`,
 		`emit(tostring(io.stdout) == tostring(io.output()))`,
 	}},
-	{Name: "io_file_roundtrip", Stmts: []string{
+	{Name: "io_file_roundtrip", Active: true, Stmts: []string{
 		`f = io.open("$D/obs_$R.txt", "w")`,
 		`f:write("abc", 12) f:close()`,
 		`g = io.open("$D/obs_$R.txt")`,
@@ -427,36 +432,36 @@ var Observers = []Script{
 		`emit(c.kill.cpu, c.kill.memory, c.kill.millis)`,
 		`emit(c.flags, c.due)`,
 	}},
-	{Name: "ctx_nested_cpu", Stmts: []string{
+	{Name: "ctx_nested_cpu", Active: true, Stmts: []string{
 		`c = runtime.callcontext({kill = {cpu = 5000}}, function() local n = 0 for i = 1, 100 do n = n + i end return n end)`,
 		`emit(c.status)`,
 		`emit(c.kill.cpu, c.kill.memory)`,
 		`emit(c.used.cpu)`,
 	}},
-	{Name: "ctx_nested_mem", Stmts: []string{
+	{Name: "ctx_nested_mem", Active: true, Stmts: []string{
 		`c = runtime.callcontext({kill = {memory = 100000}}, function() local t = {} for i = 1, 100 do t[i] = i end return #t end)`,
 		`emit(c.status)`,
 		`emit(c.used.memory)`,
 	}},
-	{Name: "ctx_killed_cpu", Stmts: []string{
+	{Name: "ctx_killed_cpu", Active: true, Stmts: []string{
 		`c = runtime.callcontext({kill = {cpu = 300}}, function() while true do end end)`,
 		`emit(c.status)`,
 		`emit(c.used.cpu >= 300)`,
 		`emit(runtime.context().status)`,
 	}},
-	{Name: "coro_roundtrip", Stmts: []string{
+	{Name: "coro_roundtrip", Active: true, Stmts: []string{
 		`co = coroutine.create(function(a) local b = coroutine.yield(a + 1) return b * 2 end)`,
 		`emit(coroutine.resume(co, 1))`,
 		`emit(coroutine.status(co))`,
 		`emit(coroutine.resume(co, 10)) emit(coroutine.status(co))`,
 	}},
-	{Name: "coro_wrap_gen", Stmts: []string{
+	{Name: "coro_wrap_gen", Active: true, Stmts: []string{
 		`g = coroutine.wrap(function() for i = 1, 3 do coroutine.yield(i) end end)`,
 		`emit(g())`,
 		`emit(g(), g())`,
 		`emit(coroutine.isyieldable(), coroutine.running())`,
 	}},
-	{Name: "recursion_depth_120", Stmts: []string{
+	{Name: "recursion_depth_120", Active: true, Stmts: []string{
 		`function sum(n) if n == 0 then return 0 end return n + sum(n - 1) end`,
 		`emit(sum(120))`,
 		`emit(sum(9), sum(11), sum(10))`,
@@ -486,13 +491,13 @@ var Observers = []Script{
 		`emit(package.config)`,
 		`emit(package.loaded.mod, package.preload.mod, package.loaded.m1)`,
 	}},
-	{Name: "pkg_require", Stmts: []string{
+	{Name: "pkg_require", Active: true, Stmts: []string{
 		`emit(require("string") == string)`,
 		`emit((pcall(require, "mod")))`,
 		`emit((pcall(require, "m1")))`,
 		`emit(#package.searchers, GLOB_FROM_MOD)`,
 	}},
-	{Name: "os_locale_query", Stmts: []string{
+	{Name: "os_locale_query", Active: true, Stmts: []string{
 		`ok, v = pcall(os.setlocale, nil)`,
 		`emit(ok, ok and v)`,
 		`emit(os.setlocale("C"))`,
@@ -521,7 +526,7 @@ var Observers = []Script{
 		`emit(xpcall(function() return 1, 2 end, print))`,
 		`emit((xpcall(error, function() error("h") end)))`,
 	}},
-	{Name: "load_chunk", Stmts: []string{
+	{Name: "load_chunk", Active: true, Stmts: []string{
 		`emit(load("return 1+1")())`,
 		`f = load("x_obs = ...; return x_obs")`,
 		`emit(f(5), x_obs)`,
@@ -557,7 +562,7 @@ var Observers = []Script{
 		`emit(("a,b,c"):match("(%a),(%a)"))`,
 		`for w in ("x y"):gmatch("%a") do emit(w) end`,
 	}},
-	{Name: "string_dump_load", Stmts: []string{
+	{Name: "string_dump_load", Active: true, Stmts: []string{
 		`f = function(a, b) return a * b + 1 end`,
 		`d = string.dump(f)`,
 		`emit(#d, type(d))`,
@@ -575,13 +580,13 @@ var Observers = []Script{
 		`emit(math.tointeger(3.0), math.type(1), math.type(1.0), math.type("1"))`,
 		`emit(math.fmod(7, 3), math.sqrt(16), math.ult(1, -1))`,
 	}},
-	{Name: "warn_state", Stmts: []string{
+	{Name: "warn_state", Active: true, Stmts: []string{
 		`warn("off-by-default")`,
 		`emit(type(warn))`,
 		`warn("@on") warn("visi", "ble")`,
 		`warn("@off") warn("hidden")`,
 	}},
-	{Name: "env_no_metatable", Stmts: []string{
+	{Name: "env_no_metatable", Active: true, Stmts: []string{
 		`emit(getmetatable(_G))`,
 		`emit(undefined_global_xyz)`,
 		`emit(rawget(_G, "x_undefined"), _ENV == _G)`,
@@ -592,7 +597,7 @@ var Observers = []Script{
 		`emit(tonumber("10", 2), tonumber(""), tonumber("1 2"))`,
 		`emit(10 == "10", "abc" < "abd", 1 < 1.5)`,
 	}},
-	{Name: "loop_closures", Stmts: []string{
+	{Name: "loop_closures", Active: true, Stmts: []string{
 		`a = {} for i = 1, 3 do a[i] = function() return i end end`,
 		`emit(a[1](), a[2](), a[3]())`,
 		`emit(debug.getupvalue(a[1], 1))`,
